@@ -230,12 +230,29 @@ class Ctx:
 COVERAGE = None     # the shard's FunctionCoverage (forked children report into it)
 
 
+_STMT = {}
+
+
+def _stmt_lines(path):
+    """first lines of the statements of a source file (LINE events fire there; continuation lines never do)"""
+    if path not in _STMT:
+        import ast
+        try:
+            with open(path) as f:
+                tree = ast.parse(f.read())
+            _STMT[path] = {n.lineno for n in ast.walk(tree) if isinstance(n, ast.stmt)}
+        except Exception:
+            _STMT[path] = set(range(1, 100000))
+    return _STMT[path]
+
+
 class FunctionCoverage:
     TOOL = 3
 
-    def __init__(self):
+    def __init__(self, anchors=()):
         self.seen = set()
         self.on = False
+        self.anchors = tuple(anchors)
 
     def start(self):
         mon = getattr(sys, "monitoring", None)
@@ -248,14 +265,35 @@ class FunctionCoverage:
         prefix = os.path.join(REPO, "pyrepseq") + os.sep
         seen = self.seen
 
+        anchors = self.anchors
+        keys = {}
+
         def on_start(code, offset):
             fn = code.co_filename
             if fn.startswith(prefix):
                 mod = fn[len(REPO) + 1:-3].replace(os.sep, ".")
-                seen.add(f"{mod}:{code.co_qualname}")
+                key = f"{mod}:{code.co_qualname}"
+                seen.add(key)
+                # line-level reach inside the anchored functions (and the functions nested in them)
+                owner = next((a for a in anchors if key == a or key.startswith(a + ".<locals>")), None)
+                if owner is not None:
+                    keys[code] = owner
+                    lines = sorted({ln for _, _, ln in code.co_lines() if ln and ln != code.co_firstlineno} & _stmt_lines(fn))
+                    seen.add(f"X|{owner}|" + ",".join(map(str, lines)))
+                    try:
+                        mon.set_local_events(self.TOOL, code, mon.events.LINE)
+                    except Exception:
+                        pass
+            return mon.DISABLE
+
+        def on_line(code, line):
+            owner = keys.get(code)
+            if owner is not None:
+                seen.add(f"L|{owner}|{line}")
             return mon.DISABLE
 
         mon.register_callback(self.TOOL, mon.events.PY_START, on_start)
+        mon.register_callback(self.TOOL, mon.events.LINE, on_line)
         mon.set_events(self.TOOL, mon.events.PY_START)
         self.on = True
 
@@ -264,6 +302,7 @@ class FunctionCoverage:
             mon = sys.monitoring
             mon.set_events(self.TOOL, 0)
             mon.register_callback(self.TOOL, mon.events.PY_START, None)
+            mon.register_callback(self.TOOL, mon.events.LINE, None)
             mon.free_tool_id(self.TOOL)
             self.on = False
 
